@@ -18,6 +18,9 @@ CHECKS = {
  "C11": dict(text="Coq theorems (Props/C11.v) for every byte string and every decodable type nested to any depth (induction on the type): decoding is total, a success consumed a non-empty prefix and nothing else, only values of the type are accepted (0/1 bools, valid UTF-8, unique dictionary keys, in-range var-ints), loop iterations are bounded by the input length and reservations by the bytes that remain; same for skip_tagged_fields and the generator-reply decoder. Tied to the real Decoder by exhaustive short inputs for all types, truncations/corruptions of valid encodings and random inputs; every error is rendered; the largest allocation request is observed with a counting allocator.",
              note="Trusted: Coq kernel, extraction, harness (incl. its counting allocator). Memory safety of unsafe blocks is outside the model. Wall-clock/RSS not measured.",
              tech="Coq proof (induction on types; totality, prefix, strictness, bounds) + exhaustive short-input correspondence", ref="DESIGN.md §7 C11"),
+ "C05": dict(text="Coq theorems (Props/C05.v) about the transcription of CycleDetector (root comparison, stack skip, vertex-set de-duplication) over an arbitrary successor function: every reported chain is a real path of containment links back to the named type with a witnessing field per link; every type on a containment cycle is named by some report; acyclic programs get no report; the detector's descent order equals the declarative 'mentions under any nest of Sequence/Dictionary key,value/Result' relation; for alias-mention and inheritance graphs a loop is found iff a node reaches itself; the alias seen-list walk terminates. Tied to the real compiler by exhaustive small containment graphs with every wrapper form, all alias and inheritance graphs over <= 3 nodes (sampled/all over 4), random graphs up to 10 nodes, in isolated workers.",
+             note="Trusted: Coq kernel, extraction, harness, the Python generator of Slice text from graphs. Stack depth/wall-clock are runtime; the model gives depth bounds only.",
+             tech="Coq soundness+completeness proof of the cycle detector + bounded-exhaustive graph correspondence", ref="DESIGN.md §7 C05"),
 }
 NOT_APPLICABLE = {}
 def main():
